@@ -1,4 +1,5 @@
 import Firefly.Model.Hal
+import Firefly.Spec.Term
 /-!
 # C16 — specification and executable oracle
 
@@ -47,6 +48,17 @@ def ttyStream (pre post : List UInt8) : List UInt8 := lastN cap pre ++ post
 def isInfix (pat : List UInt8) : List UInt8 → Bool
   | [] => pat.isEmpty
   | l@(_ :: t) => pat.isPrefixOf l || isInfix pat t
+
+/-! ### the shipped terminal as the TTY (reference terminal of C17) -/
+
+/-- what a freshly attached terminal — `w × h` viewport, `sb` scrollback lines, tab width `tab`, the
+mock consoles' default colours 7 on 0 — holds after receiving `bs` -/
+def shown (w h sb tab : Nat) (bs : List UInt8) : Firefly.Term.Term :=
+  bs.foldl Firefly.Term.Term.byte (Firefly.Term.Term.new w h sb tab 7 0)
+
+/-- a cell grid as the (char, fg, bg) byte triples the terminal buffer and the recording console hold -/
+def gridBytes (g : Firefly.Term.Grid) : List UInt8 :=
+  g.flatMap fun line => line.flatMap fun c => [c.ch, c.fg, c.bg]
 
 /-! ### histories -/
 
